@@ -26,7 +26,7 @@ import (
 )
 
 type c07Msg struct {
-	K string `json:"k"` // str dflt err marsh other
+	K string `json:"k"` // str dflt err marsh other nil
 	T int    `json:"t,omitempty"`
 	V int    `json:"v,omitempty"` // which Go type carries it
 }
@@ -145,7 +145,7 @@ func c07Build(e *c07Err) error {
 }
 
 func c07EncMsg(m *c07Msg) string {
-	k := map[string]int{"str": 0, "dflt": 1, "err": 2, "marsh": 3, "other": 4}[m.K]
+	k := map[string]int{"str": 0, "dflt": 1, "err": 2, "marsh": 3, "other": 4, "nil": 5}[m.K]
 	return wJoin(wInt(k), wInt(m.T))
 }
 
@@ -213,6 +213,9 @@ func c07CanonChunk(b []byte, status int) string {
 	var v interface{}
 	if json.Unmarshal(b, &v) != nil {
 		return "9"
+	}
+	if v == nil {
+		return "3" // the JSON document null
 	}
 	if obj, ok := v.(map[string]interface{}); ok {
 		if mv, has := obj["message"]; has {
@@ -427,6 +430,20 @@ func c07Run(ci any) (res Result) {
 	} else if crashed {
 		fail("the panic escaped ServeHTTP although Recover is installed")
 	} else {
+		// information leak (checked first: the gravest way to fail)
+		if !c.Debug {
+			var secrets []int
+			if c.Panic == "" || c.Panic == "err" {
+				c07Secrets(c.Err, &secrets)
+			} else {
+				secrets = append(secrets, c.PanicT)
+			}
+			for _, s := range secrets {
+				if bytes.Contains(body, []byte(c07Mk(s))) || bytes.Contains(body, []byte(strconv.Itoa(7000000+s))) {
+					fail("text of internal error (atom %d) reached the client with Debug off: %q", s, body)
+				}
+			}
+		}
 		if len(w.calls) != 1 {
 			fail("exactly one response expected, the underlying writer received WriteHeader calls %v", w.calls)
 		} else if w.calls[0] < 0 {
@@ -503,20 +520,6 @@ func c07Run(ci any) (res Result) {
 				}
 			}
 		}
-		// information leak
-		if !c.Debug {
-			var secrets []int
-			if c.Panic == "" || c.Panic == "err" {
-				c07Secrets(c.Err, &secrets)
-			} else {
-				secrets = append(secrets, c.PanicT)
-			}
-			for _, s := range secrets {
-				if bytes.Contains(body, []byte(c07Mk(s))) || bytes.Contains(body, []byte(strconv.Itoa(7000000+s))) {
-					fail("text of internal error (atom %d) reached the client with Debug off: %q", s, body)
-				}
-			}
-		}
 	}
 
 	// real server round trip: what a client gets is what the recording writer saw
@@ -547,6 +550,9 @@ func c07Run(ci any) (res Result) {
 			tag("msg:" + c.Err.Msg.K)
 			if c.Err.In != nil {
 				tag("internal:" + c.Err.In.K)
+				if c.Err.In.K == "http" {
+					tag("carried-msg:" + c.Err.In.Msg.K)
+				}
 			}
 		}
 		if c.Err.K == "wrap" && c.Err.In.K == "http" {
@@ -618,9 +624,9 @@ func (g *c07G) code() int {
 	return c07Codes[g.r.Intn(len(c07Codes))]
 }
 func (g *c07G) msg() *c07Msg {
-	k := []string{"str", "str", "str", "dflt", "err", "marsh", "other"}[g.r.Intn(7)]
+	k := []string{"str", "str", "str", "dflt", "err", "marsh", "other", "nil"}[g.r.Intn(8)]
 	m := &c07Msg{K: k, V: g.r.Intn(6)}
-	if k != "dflt" {
+	if k != "dflt" && k != "nil" {
 		m.T = g.atom()
 	}
 	return m
@@ -685,10 +691,10 @@ func c07Gen(r *rand.Rand, tier string) []any {
 	g := &c07G{r: r, next: 500}
 	for _, debug := range []bool{false, true} {
 		for _, method := range []string{http.MethodGet, http.MethodHead} {
-			for _, mk := range []string{"str", "dflt", "err", "marsh", "other"} {
+			for _, mk := range []string{"str", "dflt", "err", "marsh", "other", "nil"} {
 				mkMsg := func() *c07Msg {
 					m := &c07Msg{K: mk, V: r.Intn(6)}
-					if mk != "dflt" {
+					if mk != "dflt" && mk != "nil" {
 						m.T = g.atom()
 					}
 					return m
@@ -703,6 +709,10 @@ func c07Gen(r *rand.Rand, tier string) []any {
 					// plain Internal below an internal HTTPError
 					{K: "http", Code: 502, Msg: mkMsg(), In: &c07Err{K: "http", Code: 503, Msg: mkMsg(), In: &c07Err{K: "plain", T: g.atom()}}},
 					{K: "http", Code: 204, Msg: mkMsg(), In: &c07Err{K: "plain", T: g.atom()}},
+					// message of this kind on the directly carried HTTPError, which itself carries a plain error
+					{K: "http", Code: 400, Msg: &c07Msg{K: "str", T: g.atom()}, In: &c07Err{K: "http", Code: 409, Msg: mkMsg(), In: &c07Err{K: "plain", T: g.atom()}}},
+					// no Internal at all
+					{K: "http", Code: 502, Msg: mkMsg()},
 				}
 				for _, s := range shapes {
 					for _, pk := range []string{"", "err"} {
@@ -807,7 +817,7 @@ func c07Mutate(r *rand.Rand, ci any) []any {
 func init() {
 	register(&Prop{
 		ID:             "C07",
-		Rule:           "error values as trees: plain | fmt.Errorf(%w) wrap | *echo.HTTPError (NewHTTPError / literal / SetInternal / WithInternal) with message kinds {string, default StatusText, error value, json.Marshaler (also one that is an error too), map/struct/slice} and Internal {none, plain, wrapped, HTTPError, nested}, depth <= 3 (thorough: 5), codes 200-599 incl. 204/304; x returned or panicked (panic values: error, string, int, struct, http.ErrAbortHandler) x Recover installed or not x RecoverConfig.DisableErrorHandler x an outer middleware that calls c.Error(err) AND returns err x handler did {nothing, String, NoContent, Flush, WriteHeader, failed JSON} before failing x GET/HEAD/POST x Debug; plus a fixed family aimed at the decision points (two Internal levels, %w around / inside an HTTPError); every text is a unique marker; a follow-up request checks the server still serves; thorough: 3000 cases also through a real httptest.Server; non-trivial = tree depth >= 2, or a panic, or committed before the error, or the double-handling middleware",
+		Rule:           "error values as trees: plain | fmt.Errorf(%w) wrap | *echo.HTTPError (NewHTTPError / literal / SetInternal / WithInternal) with message kinds {string, default StatusText, error value, json.Marshaler (also one that is an error too), map/struct/slice, nil (no message: literal without Message, NewHTTPError(code, nil))} and Internal {none, plain, wrapped, HTTPError, nested}, depth <= 3 (thorough: 5), codes 200-599 incl. 204/304; x returned or panicked (panic values: error, string, int, struct, http.ErrAbortHandler) x Recover installed or not x RecoverConfig.DisableErrorHandler x an outer middleware that calls c.Error(err) AND returns err x handler did {nothing, String, NoContent, Flush, WriteHeader, failed JSON} before failing x GET/HEAD/POST x Debug; plus a fixed family aimed at the decision points (two Internal levels, %w around / inside an HTTPError); every text is a unique marker; a follow-up request checks the server still serves; thorough: 3000 cases also through a real httptest.Server; non-trivial = tree depth >= 2, or a panic, or committed before the error, or the double-handling middleware",
 		New:            func() any { return &c07Case{} },
 		Gen:            c07Gen,
 		Run:            c07Run,
